@@ -96,8 +96,8 @@ def replay_events_graph(ctx, maxops):
 
 def run(ctx):
     from .. import drive_pipeline as dp
-    sanity = [('CloseBeforeBody', 'ClosedLast'), ('NoExcObjOnSerFail', 'ExcObjIffFault')]
-    pc.check_design(ctx, 'events', M1_INV, sanity if not ctx.quick else sanity[1:])
+    sanity = [('NoExcObjOnSerFail', 'ExcObjIffFault')]
+    pc.check_design(ctx, 'events', M1_INV, sanity)
     n_edges = replay_events_graph(ctx, 3 if ctx.quick else 4)
     scens = pc.export_scenarios(ctx, 'events')
     recs = []
